@@ -35,6 +35,10 @@ type KnownFinding struct {
 	What       string `json:"what"`
 	Status     string `json:"status"` // "known" or "fixed"
 	Commit     string `json:"commit,omitempty"`
+	GoCall     string `json:"go_call,omitempty"`
+	Model      map[string]string `json:"model,omitempty"`
+	Decls      []string `json:"harness_decls,omitempty"`
+	Imports    map[string]string `json:"harness_imports,omitempty"`
 }
 
 type CheckOpts struct {
@@ -68,6 +72,9 @@ func propsOfContract(c *Contract) map[string]bool {
 	}
 	add := func(cl []Clause) {
 		for _, x := range cl {
+			if x.Src == "true" {
+				continue // schema slot left empty for this type
+			}
 			for _, t := range x.Tags {
 				m[t] = true
 			}
@@ -245,7 +252,9 @@ func RunCheck(opts CheckOpts) *CheckReport {
 
 	work := filepath.Join(VerifDir, ".work", fmt.Sprintf("%s-%d", opts.Prop, os.Getpid()))
 	os.MkdirAll(work, 0o755)
-	defer os.RemoveAll(work)
+	if os.Getenv("VERIF_DEBUG_REPLAY") == "" {
+		defer os.RemoveAll(work)
+	}
 
 	// generate obligations (worklist: verified callees join the property)
 	done := map[string]bool{}
@@ -464,15 +473,19 @@ func RunCheck(opts CheckOpts) *CheckReport {
 		isKnown := false
 		for _, k := range known {
 			if k.Status == "known" && k.Property == opts.Prop && k.Obligation == v.name {
-				if k.Input == "" || k.Input == inputDesc || prog.KnownInputStillFails(opts, k, v.res, frs, work) {
+				if prog.KnownInputStillFails(opts, k, v.res, frs, work) {
 					isKnown = true
-					knownLines = append(knownLines, fmt.Sprintf("KNOWN-FINDING: property=%s %s input=%s %s", opts.Prop, k.Obligation, k.Input, k.What))
+					knownLines = append(knownLines, fmt.Sprintf("KNOWN-FINDING: property=%s %s: %s [input: %s]", opts.Prop, k.Obligation, k.What, truncate(k.Input, 160)))
 				}
 			}
 		}
 		data, _ := json.MarshalIndent(info, "", " ")
 		os.WriteFile(rf, data, 0o644)
 		if isKnown {
+			// a known finding is reported, not counted among the obligations claimed as proved
+			if v.res != nil && !v.res.O.Probe {
+				nProof--
+			}
 			continue
 		}
 		nviol++
